@@ -163,6 +163,21 @@ def check_case(case):
                     break
             anymatch = anymatch or len(xi) > 0
             anyunmatched = anyunmatched or len(xi) < len(X)
+    # other documented call forms give the same pairing: arguments by position, one-feature sets as [n x 1] columns
+    if not viols and case[0] in ('1d', '2d', '1d-grid'):
+        try:
+            ref = kdt_match(x.copy(), y.copy(), K=2, distance_upper_bound=1.5)
+            forms = [('positional (x, y, K, bound)', lambda: kdt_match(x.copy(), y.copy(), 2, 1.5))]
+            if x.ndim == 1:
+                forms.append(('[n x 1] columns', lambda: kdt_match(x[:, None].copy(), y[:, None].copy(), K=2, distance_upper_bound=1.5)))
+            for fname, f_ in forms:
+                alt = f_()
+                trans += 1
+                if not (np.array_equal(np.asarray(alt[0]), np.asarray(ref[0])) and np.array_equal(np.asarray(alt[1]), np.asarray(ref[1]))):
+                    viols.append(('call-form-differs', '%s K=2 bound=1.5: %s gives %s / %s, the keyword call with arrays %s / %s' % (
+                        d, fname, np.asarray(alt[0]).tolist(), np.asarray(alt[1]).tolist(), np.asarray(ref[0]).tolist(), np.asarray(ref[1]).tolist())))
+        except Exception as e:
+            viols.append(('raise:%s:call-form' % type(e).__name__, '%s: an alternative call form raised %r' % (d, e)))
     # state between calls: reuse the very same y buffer with new contents - the answer must be that of a fresh array
     if len(Y) >= 2 and not viols:
         ybuf = y.copy()
